@@ -128,7 +128,7 @@ theorem rankSelect_type (v1 v2 : VT) :
   by_cases h : v1.type.rank > v2.type.rank
   · simp [h]
   · by_cases h2 : v1.type = v2.type
-    · simp [h, h2]
+    · simp [h2]
     · simp [h, h2]
 
 /-- if the operand types differ the `ternary` exception for a `BOOL` result cannot fire -/
@@ -220,9 +220,6 @@ theorem incdec_tab : (Shape.consistentAll.all fun s => CT.all.all fun a =>
 
 /-! ## `?:` with operands of one `ValueType::Type` (the other pairs reduce to the arithmetic table) -/
 
-/-- the two operand types have the same `ValueType::Type` (what `isTypeEqual` compares) -/
-def sameVType (t1 t2 : CT) : Bool := (declVT t1).type == (declVT t2).type
-
 /-- as pinned and with the first patch: the type of the second operand is kept, which is what the language says
     exactly when the operand types are identical and (C++ or not below `int`);
     with both patches: the language's type except for `_Bool ? _Bool : _Bool` in C (kept `bool`, class K3) -/
@@ -234,5 +231,52 @@ theorem ternary_same_tab : (Shape.consistentAll.all fun s => CT.all.all fun a =>
         (!(a == b && (cpp || !belowInt a)) || same (convTernary v s cpp (declVT a) (declVT b)) sp)) &&
       ((!cpp && a == .bool && b == .bool) || same (convTernary .fixAB s cpp (declVT a) (declVT b)) sp))) = true := by
   decide +kernel
+
+/-! ## the tables as ∀-statements -/
+
+theorem k2_floating (s : Shape) (a : CT) (h : a.isFloating = true) : promotesToUnsigned s a = false := by
+  cases a <;> first | rfl | (simp [CT.isFloating] at h)
+
+theorem isFloating_cases (a b : CT) :
+    (a.isFloating = true ∨ b.isFloating = true) ∨ (a.isFloating = false ∧ b.isFloating = false) := by
+  cases a.isFloating <;> cases b.isFloating <;> simp
+
+/-- as pinned, `+ - * / %`: outside K1/K2 the model gives the 6.3.1.8 type -/
+theorem arith_base_partial (s : Shape) (hs : s.consistent = true) (a b : CT)
+    (h1 : sameSizeDifferentRankMixedSign s a b = false) (h2 : promotesToUnsigned s a = false)
+    (h3 : promotesToUnsigned s b = false) :
+    convCls .base s false .arith (declVT a) (declVT b) = some (asVT (uac s a b)) := by
+  rcases isFloating_cases a b with hf | ⟨ha, hb⟩
+  · exact arith_floating .base s a b hf
+  · have := table3i arith_base_tab s hs a b ha hb
+    simp only [h1, h2, h3, Bool.false_or] at this
+    exact (same_iff _ _).mp (by simpa using this)
+
+/-- as pinned: inside K1 the model never gives the 6.3.1.8 type -/
+theorem arith_base_k1 (s : Shape) (hs : s.consistent = true) (a b : CT)
+    (h1 : sameSizeDifferentRankMixedSign s a b = true) :
+    convCls .base s false .arith (declVT a) (declVT b) ≠ some (asVT (uac s a b)) := by
+  rcases isFloating_cases a b with hf | ⟨ha, hb⟩
+  · rw [k1_floating s a b hf] at h1; cases h1
+  · have := table3i arith_base_tab s hs a b ha hb
+    simp only [h1, if_true] at this
+    exact (same_false_iff _ _).mp (by simpa using this)
+
+/-- patched: the model gives the 6.3.1.8 type for all operands -/
+theorem arith_fix_all (s : Shape) (hs : s.consistent = true) (a b : CT) :
+    convCls .fixA s false .arith (declVT a) (declVT b) = some (asVT (uac s a b)) := by
+  rcases isFloating_cases a b with hf | ⟨ha, hb⟩
+  · exact arith_floating .fixA s a b hf
+  · exact (same_iff _ _).mp (table3i arith_fix_tab s hs a b ha hb)
+
+theorem bit_intOnly (op : BinOp) (h : op.cls = .bit) : op.intOnly = true := by
+  cases op <;> first | rfl | (simp [BinOp.cls] at h)
+
+theorem shift_intOnly (op : BinOp) (h : op.cls = .shift) : op.intOnly = true := by
+  cases op <;> first | rfl | (simp [BinOp.cls] at h)
+
+theorem wellTyped_ints (op : BinOp) (a b : CT) (hi : op.intOnly = true) (h : wellTypedBin op a b = true) :
+    a.isFloating = false ∧ b.isFloating = false := by
+  simpa [wellTypedBin, hi] using h
 
 end Cppcheck.ConvSpec
